@@ -1,7 +1,7 @@
 (* Prop_C06.v — property theorems for C06, and nothing else: each statement is closed
    by `exact <lemma>` and followed by Print Assumptions. *)
 From Dig Require Import Base Sig State Graph GraphProofs Register Resolve Run Spec Check
-  ErrTable Err ErrTableCheck P_Frame.
+  ErrTable Err ErrTableCheck P_Frame P_C06.
 
 (* ---- C06: a rejected Provide / Decorate / malformed call changes nothing
         but `verified` flags ---- *)
@@ -14,3 +14,22 @@ Theorem C06_decorate_rejected_frame : forall st s p e st',
   decorate st s p = (VErr e, st') -> st' = st.
 Proof. exact P_Frame.decorate_rejected_frame. Qed.
 Print Assumptions C06_decorate_rejected_frame.
+
+(* ---- C06, observationally: deleting every rejected Provide / Decorate /
+        malformed call from a history changes no observation of any other
+        operation ---- *)
+Theorem C06_holds : forall cfg b du h, wf_scopes h = true ->
+  chk_C06 h (map obs_of (run cfg b du h))
+            (map obs_of (run cfg b du (filter_accepted h (run cfg b du h)))) = [].
+Proof. exact P_C06.chk_C06_ok. Qed.
+Print Assumptions C06_holds.
+
+Theorem C06_single_rejection : forall cfg b du h1 r h2,
+  wf_scopes (h1 ++ r :: h2) = true -> reglike r = true ->
+  forall ob, nth_error (run cfg b du (h1 ++ r :: h2)) (length h1) = Some ob -> so_verdict ob <> VOk ->
+  so_events ob = [] /\
+  skipn (S (length h1)) (run cfg b du (h1 ++ r :: h2)) = skipn (length h1) (run cfg b du (h1 ++ h2)) /\
+  firstn (length h1) (run cfg b du (h1 ++ r :: h2)) = firstn (length h1) (run cfg b du (h1 ++ h2)) /\
+  Eqv (state_after cfg b du (h1 ++ r :: h2)) (state_after cfg b du (h1 ++ h2)).
+Proof. exact P_C06.C06_single. Qed.
+Print Assumptions C06_single_rejection.
